@@ -313,7 +313,11 @@ Why(C, X, e) ==
              ELSE IF Fin(X, n) THEN "cancel-after-end" ELSE "cancel-other")
        [] e.k = "cancel-done" -> "cancel-done-early"
        [] e.k = "tick" ->
-            (IF \E j \in Nodes(C) : AdmitG(C, X, j) THEN "tick-over-eligible-job"
+            (IF \E j \in Nodes(C) : AdmitG(C, X, j)
+             THEN \* an eligible job is kept waiting although its own scheduler has room
+                  "tick-over-eligible-job" \o
+                  (IF \E j \in Nodes(C) : AdmitG(C, X, j) /\ C.win[C.parent[j]] > 0 /\ C.parent[j] # Root THEN "-nested-window"
+                   ELSE IF \E j \in Nodes(C) : AdmitG(C, X, j) /\ C.win[C.parent[j]] > 0 THEN "-window" ELSE "")
              ELSE IF \E s \in Scheds(C) : MainG(C, X, s) /\ Unseen(C, X, s) # {} THEN "tick-over-unprocessed"
              ELSE IF \E s \in Scheds(C) : TimeoutG(C, X, s) THEN "tick-over-deadline"
              ELSE IF \E s \in Scheds(C) : ShutExpireG(C, X, s) THEN "tick-over-shutdown-deadline"
